@@ -27,7 +27,8 @@ OrderSet(root, part) == IF part = "base" THEN OrderTrees(root) \cup RevTrees(roo
                         ELSE IF part = "rev" THEN RevInterleaved(root) ELSE OrderInterleaved(root, Thorough)
 \* (the worker that expands a state also checks its successors: 8 chunks per set keep all workers busy)
 PickOrder == st[1] = "O" /\ \E t \in {x \in OrderSet(st[2], st[3]) : Len(x.subs) % 4 = st[4]} : st' = <<"order", st[2], t, 0>>
-PickWs == st[1] = "W" /\ \E a \in WsCands(st[2]) \cup GramCands(st[2], Thorough) : st' = <<"arg", st[2], st[3], a>>
+PickWs == st[1] = "W" /\ \E a \in WsCands(st[2]) \cup GramCands(st[2], Thorough) \cup (IF Thorough \/ st[2] = "identifier" THEN ByteCands(st[2], Thorough) ELSE {}) :
+                         st' = <<"arg", st[2], st[3], a>>
 PickExt == st[1] = "init" /\ \E e \in ExtNames : \E x \in ExtCells(e), n \in 0..2 : st' = <<"X", e, x, n>>
 MCNext == PickExt \/ PickFam \/ PickCard \/ PickArg \/ PickOrder \/ PickWs
 
